@@ -13,7 +13,7 @@ RULE = ('Hypothesis draws (mode valid) a domain (2-4 attrs, sizes 1-4), 1-4 meas
         'measured cliques: after iteration escalation (1000, 4000, 16000) the loss must reach the certified simplex-QP optimum '
         '(plateau rule as C03). Non-trivial = overlapping cliques (valid) / >=2 disjoint cliques with non-identity Q or '
         'unequal noise (exact); distinct by sha1.')
-BUDGET = {'quick': 400, 'thorough': 9600}
+BUDGET = {'quick': 320, 'thorough': 9600}
 TIME = {'quick': 110, 'thorough': 1700}
 KINDS = ['identity', 'identity', 'sparse_eye', 'dense', 'prefix', 'sparse_prefix', 'scaled', 'total']
 
